@@ -26,6 +26,7 @@ type Config struct {
 	Deadline     time.Time
 	Concrete     *Tape // non-nil: concrete mode, Nondet* read this tape
 	Tier         string
+	NoMerge      bool
 }
 
 type Violation struct {
@@ -105,6 +106,7 @@ type Engine struct {
 	harnessPkg *ssa.Package
 	feasCache map[string]Result
 	initCache map[*ssa.Package]*initSnap
+	mergeMemo map[string][]*mergeMemoEntry
 }
 
 func NewEngine(prog *ssa.Program, cfg Config) (*Engine, error) {
@@ -136,7 +138,7 @@ func NewEngine(prog *ssa.Program, cfg Config) (*Engine, error) {
 	e := &Engine{prog: prog, ts: ts, solver: s, cfg: cfg,
 		stubs: map[string]*ssa.Function{}, violTags: map[string]bool{},
 		initStores: map[*ssa.Package]map[*ssa.Global]bool{}, noopT: map[string]types.Type{},
-		feasCache: map[string]Result{}, initCache: map[*ssa.Package]*initSnap{}}
+		feasCache: map[string]Result{}, initCache: map[*ssa.Package]*initSnap{}, mergeMemo: map[string][]*mergeMemoEntry{}}
 	return e, nil
 }
 
@@ -361,7 +363,21 @@ func (e *Engine) addPC(st *State, c *Term) {
 
 // checkW asks the solver for pc ∧ c and, on sat, returns a verified witness.
 func (e *Engine) checkW(st *State, c *Term) (Result, *Witness) {
-	r, m := e.solver.Check(st.pc, c, e.nondetVars(st))
+	mv := e.nondetVars(st)
+	extra := map[string]*Term{}
+	CollectVars(c, map[int]bool{}, extra)
+	if len(extra) > 0 {
+		have := map[string]bool{}
+		for _, v := range mv {
+			have[v.Name] = true
+		}
+		for n, v := range extra {
+			if !have[n] {
+				mv = append(mv, v)
+			}
+		}
+	}
+	r, m := e.solver.Check(st.pc, c, mv)
 	if r != Sat || m == nil {
 		return r, nil
 	}
@@ -374,6 +390,14 @@ func (e *Engine) checkW(st *State, c *Term) (Result, *Witness) {
 		ok = e.evalBool(w, p)
 	}
 	if !ok {
+		if os.Getenv("VERIF_DEBUG_MODEL") != "" {
+			fmt.Printf("MODEL-MISMATCH c=%v\n", e.evalBool(w, c))
+			for i, p := range st.pc {
+				fmt.Printf("  pc[%d]=%v %s\n", i, e.evalBool(w, p), p.render(5))
+			}
+			fmt.Printf("  model=%v\n", m)
+			os.WriteFile("/tmp/mismatch.smt2", []byte(e.solver.Script(st.pc, c, e.nondetVars(st))), 0o644)
+		}
 		e.rep.Models["diagnostic: solver model did not evaluate to true in the engine (witness discarded)"]++
 		return r, nil
 	}
